@@ -93,6 +93,12 @@ theorem links_never_overwrite (dir : String) (nc : Bool) (l : Nat) (fr : List St
     (s : LinkStore) (h : (linkGet s (linkName dir l nc)).isSome) :
     links dir nc ((l, fr) :: rest) s = (s, false) := links_existing_aborts dir nc l fr rest s h
 
+/-- the directory a complete run leaves does not depend on the order of the CSV rows (pairwise distinct labels) -/
+theorem links_do_not_depend_on_row_order (dir : String) (nc : Bool) (rows rows' : List (Nat × List String))
+    (hp : rows.Perm rows') (hd : (rows.map (·.1)).Nodup) (name : String) :
+    linkGet (links dir nc rows []).1 name = linkGet (links dir nc rows' []).1 name :=
+  links_order_independent dir nc rows rows' hp hd name
+
 example : links "mesh" false [(7, ["a", "b"]), (10, []), (7, ["c"])] [] =
     ([("mesh/10:0", []), ("mesh/7:0", ["a", "b"])], false) ∧
     (links "mesh" true [(7, ["a", "b"]), (10, [])] []).2 = true := by decide
